@@ -276,12 +276,12 @@ class C19(TableProp):
     id = 'C19'
     theorems = ['Continuum.c19_holds', 'Continuum.c19_old_aba_counterexample',
                 'Continuum.c19_old_composite_counterexample']
-    rule = ('random version tables whose values drift and return to earlier values (A,B,A), first versions that '
-            'are UPDATEs, composite keys sharing the first key column, interleaved entities, both strategies; '
+    rule = ('random version tables whose values drift and return to earlier values (A,B,A), DELETE rows between equal '
+            'rows, first versions that are UPDATEs, composite keys sharing the first key column, interleaved entities, both strategies; '
             'real utils.vacuum, then the set of rows in session.deleted compared with the model pass and judged '
             'by C19.Holds; non-trivial = some entity has >= 3 rows or two entities share the first key column')
     assumptions = ['sqlalchemy_utils.naturally_equivalent compares every non-primary-key column (modelled as VRow.data)']
-    needs_tags = ['aba', 'composite', 'some_deleted', 'first_is_update', 'joined']
+    needs_tags = ['aba', 'composite', 'some_deleted', 'first_is_update', 'joined', 'delete_between_equal']
 
     def counts(self, tier):
         return 220 if tier == 'quick' else 5000
@@ -296,11 +296,29 @@ class C19(TableProp):
                 # integer columns whose values Python hashes alike (-1 / -2, 0 / 2**61-1)
                 shape['valtype'] = 'int'
                 nvals = 4
-            rows, keys = tg.random_rows(rng, shape, n, nvals=nvals, ops=(1, 1, 1, 0), p_null=0.15, p_repeat=0.8,
+            # DELETE rows too ("all version-table contents"): a row after a DELETE row that repeats the row before it
+            # differs from its immediate predecessor and stays
+            ops = rng.choice([(1, 1, 1, 0), (1, 1, 1, 0), (1, 1, 0, 2), (1, 0, 2, 2)])
+            rows, keys = tg.random_rows(rng, shape, n, nvals=nvals, ops=ops, p_null=0.15, p_repeat=0.8,
                                         nkeys=rng.choice([1, 1, 2, 3]))
             if shape['strategy'] == 'validity' and rng.random() < 0.5:
                 rows = [r[:2] + [e] + r[3:] for r, e in zip(rows, tg.chain_ends(rows))]
             yield {'shape': shape, 'rows': rows, 'live': []}
+        # an entity deleted and brought back with the data it had (INSERT a, DELETE a, INSERT a; UPDATE x, DELETE x, UPDATE x),
+        # the DELETE row carrying the same values (subquery strategy: no end column differs)
+        for i in range(12 if tier == 'quick' else 300):
+            shape = tg.random_shape(rng, strategy='subquery', mods=False)
+            keys = tg.random_keys(rng, shape, rng.choice([1, 2]))
+            rows = []
+            for k in keys:
+                vals = [None if rng.random() < 0.15 else rng.randrange(2) for _ in range(shape.get('ncols', 2))]
+                op = rng.choice([0, 1])
+                pattern = rng.choice([[op, 2, op], [op, 2, op, op], [0, op, 2, op], [op, 2, 2, op]])
+                txs = sorted(rng.sample(range(1, 9), len(pattern)))
+                for tx, o in zip(txs, pattern):
+                    rows.append([list(k), tx, None, o, list(vals), []])
+            rng.shuffle(rows)
+            yield {'shape': shape, 'rows': rows, 'live': [], 'family': 'delete_between_equal'}
         # joined inheritance: vacuum(session, TextItem) meets polymorphic ArticleVersion rows whose subclass-table
         # column is the only thing that changes (vals = [name, content])
         for i in range(50 if tier == 'quick' else 1200):
@@ -378,6 +396,11 @@ class C19(TableProp):
                 out.tags.append('first_is_update')
         if obs['deleted']:
             out.tags.append('some_deleted')
+        for k, v in per.items():
+            for i in range(2, len(v)):
+                if v[i - 1][3] == 2 and v[i][3] != 2 and (tuple(v[i][4]), v[i][3], v[i][2]) == (tuple(v[i - 2][4]), v[i - 2][3], v[i - 2][2]):
+                    out.tags.append('delete_between_equal')
+                    break
         out.nontrivial = any(len(v) >= 3 for v in per.values()) or shared_first
         verdict, model = answers[0].split(' | ')
         model_del = []
@@ -405,14 +428,15 @@ class C20(Prop):
     workers = 12
     chunk = 2
     rule = ("keys built from an alphabet with quotes, double quotes, backslashes, percent signs, colons, newlines, "
-            "non-ASCII, the empty string and long strings (string keys), ints and composite keys, custom table-name "
-            "options; 0..n versions per key written directly; real count_versions(obj) for every live object and "
+            "non-ASCII, the empty string and long strings (string keys), ints and composite keys, key attributes named "
+            "differently from their columns, custom table-name options; 0..n versions per key written directly; real count_versions(obj) for every live object and "
             "for a transient one, compared with obj.versions.count(), the model count and judged by C20.Holds on "
             "the interned table; non-trivial = string key containing a character outside [a-z0-9] or composite "
             "key, with >= 1 version")
     assumptions = ['string keys are interned to integers for the Lean side (the model never inspects key contents; '
                    'the implementation gets the real strings)']
-    needs_tags = ['quote', 'backslash', 'colon', 'percent', 'composite', 'custom_table_name', 'zero_versions', 'pk_constraint_order']
+    needs_tags = ['quote', 'backslash', 'colon', 'percent', 'composite', 'custom_table_name', 'zero_versions', 'pk_constraint_order',
+                  'aliased_key_attribute']
 
     def counts(self, tier):
         return 150 if tier == 'quick' else 4000
@@ -440,8 +464,16 @@ class C20(Prop):
                 if k not in uniq:
                     uniq.append(k)
             counts = [rng.choice([0, 1, 1, 2, 3, 5]) for _ in uniq]
+            # key attributes named differently from their columns (`ident = Column('id', ...)`, one or both parts of a
+            # composite key; an upper-case attribute name renders quoted and SQLite reads an unknown quoted name as a string)
+            alias = {}
+            if rng.random() < 0.35:
+                if kind in ('str', 'int'):
+                    alias = {'id': rng.choice(['ident', 'ISO'])}
+                else:
+                    alias = rng.choice([{'a': 'first'}, {'b': 'Second'}, {'a': 'first', 'b': 'second'}])
             yield {'kind': kind, 'table_name': tname, 'keys': uniq, 'counts': counts,
-                   'strategy': rng.choice(['validity', 'subquery'])}
+                   'strategy': rng.choice(['validity', 'subquery']), 'key_alias': alias}
 
     def run_case(self, case):
         from sqlalchemy_continuum import count_versions
@@ -458,22 +490,28 @@ class C20(Prop):
         else:
             spec = envs.shape_flat(opts, key='int' if case['kind'] == 'int' else 'str', extra_cols=1)
             kc = ['id']
+        ka = [case.get('key_alias', {}).get(c, c) for c in kc]      # attribute names of the key columns
+        for c in spec['classes'][0]['columns']:
+            if c['name'] in case.get('key_alias', {}):
+                c['attr'] = case['key_alias'][c['name']]
         env = envs.Env(spec)
         try:
             cls = env.cls('Article')
             vt = env.version_cls('Article').__table__
             conn = env.conn
+            def by_name(table, d):
+                return {next(c for c in table.columns if c.name == name): v for name, v in d.items()}
             for k, n in zip(case['keys'], case['counts']):
-                conn.execute(cls.__table__.insert().values(**dict(zip(kc, k))))
+                conn.execute(cls.__table__.insert().values(by_name(cls.__table__, dict(zip(kc, k)))))
                 for tx in range(1, n + 1):
                     d = dict(zip(kc, k))
                     d.update({'transaction_id': tx, 'operation_type': 1})
-                    conn.execute(vt.insert().values(**d))
+                    conn.execute(vt.insert().values(by_name(vt, d)))
             conn.commit()
             s = env.s
             res = []
             for k in case['keys']:
-                obj = s.query(cls).filter_by(**dict(zip(kc, k))).one()
+                obj = s.query(cls).filter_by(**dict(zip(ka, k))).one()
                 try:
                     n = count_versions(obj)
                     err = None
@@ -481,7 +519,7 @@ class C20(Prop):
                     n = None
                     err = type(e).__name__
                     s.rollback()
-                    obj = s.query(cls).filter_by(**dict(zip(kc, k))).one()
+                    obj = s.query(cls).filter_by(**dict(zip(ka, k))).one()
                 res.append({'key': k, 'count': n, 'error': err, 'versions_count': obj.versions.count()})
             transient = count_versions(cls())
             return {'results': res, 'transient': transient}
@@ -507,6 +545,8 @@ class C20(Prop):
             out.tags.append('pk_constraint_order')
         if case.get('table_name'):
             out.tags.append('custom_table_name')
+        if case.get('key_alias'):
+            out.tags.append('aliased_key_attribute')
         allk = ''.join(str(x) for k in case['keys'] for x in k) if case['kind'] == 'str' else ''
         for ch, tag in (("'", 'quote'), ('"', 'dquote'), ('\\', 'backslash'), (':', 'colon'), ('%', 'percent'), ('\n', 'newline')):
             if ch in allk:
